@@ -508,3 +508,90 @@ def _is_buf_len(fn, op, at):
 
 def _on_vlq_path(fn, c, b):
     return b in fn.reachable_from(c.target) if c.target is not None else False
+
+
+# ------------------------------------------------------------------------------------------------------------------ DICTIDX
+INDEX_SINKS = ("glaredb_core::arrays::compute::copy::copy_rows", "glaredb_core::arrays::array::Array::select",
+               "glaredb_core::arrays::array::selection::Selection", "glaredb_core::arrays::compute::take")
+BUF_THROUGH = ("::deref", "::deref_mut", "::as_slice", "::as_mut_slice", "::as_ref", "::as_mut", "::borrow", "::borrow_mut")
+
+
+def _buf_key(fn, op, at):
+    o = fn.origin(op, at=at, through_calls=BUF_THROUGH)
+    proj = o[2] if len(o) > 2 and isinstance(o[2], list) else []
+    names = tuple(p[1] for p in proj if isinstance(p, list) and p[0] == "f")
+    if o[0] in ("arg", "local"):
+        return (o[0], o[1], names)
+    return None
+
+
+def _is_validator(facts, name):
+    """a workspace function that can reject: its body (or a closure of it) orders two values and it builds an Err"""
+    recs = [r_ for r_ in facts.fns_matching(lambda i: i == name or i.startswith(name + "::{closure"))]
+    if not recs:
+        return False
+    if not recs[0]["locals"][0].startswith("std::result::Result<"):
+        return False
+    s = str([r_["bbs"] for r_ in recs])
+    has_cmp = any(f'"bin", "{op}"' in s.replace("'", '"') for op in ("Ge", "Gt", "Lt", "Le"))
+    has_err = "'Err'" in s or '"Err"' in s or "DbError::new" in s
+    return has_cmp and has_err
+
+
+def rule_dictidx(facts, cg):
+    """Indices decoded from a data page (dictionary indices) select rows of an in-memory array. Between the decoder call that
+    fills the index buffer and every engine API that consumes indices (copy_rows*, select, take) each path passes a validator
+    over the same buffer whose error outcome leaves the function."""
+    r = RuleResult("C19-DICTIDX", "page-decoded index buffers are validated against the dictionary size on every path before an engine API "
+                   "uses them as row indices", floor=2)
+    for rec in live_reader_fns(facts, cg):
+        s = str(rec["bbs"])
+        if "Decoder::read" not in s or not any(k in s for k in INDEX_SINKS):
+            continue
+        fn = Fn(rec)
+        fills = []
+        for c in fn.calls():
+            if c.name.startswith("glaredb_ext_parquet::") and c.name.endswith("Decoder::read") and len(c.args) >= 2:
+                ty = fn.locals[c.args[1][1][0]].strip() if c.args[1][0] in ("c", "m") else ""
+                if re.match(r"&mut \[(u8|u16|u32|u64|usize|i32|i64)\]", ty) or re.match(r"&mut std::vec::Vec<(u16|u32|u64|usize|i32|i64)", ty):
+                    k = _buf_key(fn, c.args[1], c.bb)
+                    if k:
+                        fills.append((c, k))
+        sinks = [c for c in fn.calls() if any(c.name.startswith(k) for k in INDEX_SINKS)]
+        if not fills or not sinks:
+            continue
+        r.functions.add(fn.id)
+        for c, k in fills:
+            # validator calls on the same buffer, with the error outcome leaving the function
+            vblocks = []
+            for v in fn.calls():
+                if v is c or not v.callee.get("res_local", v.callee.get("local")) or not v.args:
+                    continue
+                if not any(a[0] in ("c", "m") and _buf_key(fn, a, v.bb) == k for a in v.args):
+                    continue
+                if not _is_validator(facts, v.name):
+                    continue
+                # the verdict must be branched on: Try::branch on the result, Break edge must not reach a sink
+                used = False
+                for u in fn.calls():
+                    if u.name.endswith("::branch") and u.args and u.args[0][0] in ("c", "m"):
+                        o = fn.origin(u.args[0], at=u.bb)
+                        if o[0] == "call" and o[1] is v:
+                            used = True
+                if used:
+                    vblocks.append(v.bb)
+            if c.target is None:
+                continue
+            unvalidated = fn.reachable_from(c.target, avoid=vblocks)
+            for sk in sinks:
+                if sk.bb not in fn.reachable_from(c.target):
+                    continue
+                r.call_sites += 1
+                ok = sk.bb not in unvalidated
+                r.inst({"fn": fn.id, "fill_line": c.line, "sink": sk.name.rsplit("::", 1)[-1], "sink_line": sk.line, "validators": len(vblocks)}, ok)
+                if not ok:
+                    r.violate(fn.id, f"unvalidated-indices:{sk.name.rsplit('::', 1)[-1]}",
+                              f"indices decoded from the page at line {c.line} reach `{sk.name.rsplit('::', 1)[-1]}` (line {sk.line}) on a path without "
+                              "a bounds validation of the index buffer: a corrupted page selects rows past the dictionary (panic / out-of-range read)",
+                              rec["file"], sk.line)
+    return r
